@@ -90,6 +90,9 @@ def crossratio(
         else:
             # section of the four lines with a coordinate hyperplane that does not contain their common point
             v = a.meet(b)
+            if not (np.all(c.contains(v)) and np.all(d.contains(v))):
+                # is_concurrent only tests lines of the plane
+                raise NotConcurrent("The lines are not concurrent: " + str([a, b, c, d]))
             i = np.argmax(np.abs(v.array), axis=-1)
             e = PlaneCollection.from_array(np.eye(a.dim + 1, dtype=int)[i])
             a, b, c, d = e.meet(a), e.meet(b), e.meet(c), e.meet(d)
